@@ -59,12 +59,13 @@ def model_check(out, cfgs, timeout):
 
 
 def _script_of(states):
+    """-> (history = [first lifecycle configuration, ...], remote daemons initially up, [(action, a, b)])"""
     scn = None
     up = []
     script = []
     for st in states:
         if scn is None and "scn" in st:
-            scn = to_json(st["scn"])
+            scn = [to_json(st["scn"])] + list(to_json(st["plan"]))
             up = sorted(to_json(st["env"])["up"])
         a = st.get("act")
         if a is not None and str(a["name"]) != "Init":
@@ -131,43 +132,66 @@ def random_scenario(rnd):
     return scn, up
 
 
-def signature_of(clauses, st, scn):
+def random_history(rnd):
+    scn, up = random_scenario(rnd)
+    hist = [scn]
+    n = rnd.choice([1, 1, 1, 2, 2, 2, 3])
+    while len(hist) < n:
+        nxt, _ = random_scenario(rnd)
+        if rnd.random() < 0.3:
+            nxt["ext"] = not hist[-1]["ext"]  # alternate external / provisioned more often than chance would
+        hist.append(nxt)
+    if n > 1 and rnd.random() < 0.5:
+        hist[0]["ext"] = rnd.random() < 0.5
+    return hist, up
+
+
+def signature_of(clauses, st, hist):
     procs = sorted({x["proc"] for x in st["nd"] if x["proc"] != "alive"})
-    return {"clauses": sorted(clauses), "fault": st["env"]["fault"], "external": bool(scn["ext"]), "node_process": procs}
+    cyc = st["env"]["cyc"]
+    kinds = ["external" if x["ext"] else "provisioned" for x in hist[:cyc]]
+    return {"clauses": sorted(clauses), "fault": st["env"]["fault"], "external": bool(hist[cyc - 1]["ext"]), "node_process": procs, "lifecycle": cyc, "earlier_lifecycles": sorted(set(kinds[:-1]))}
 
 
 def run_traces(ctx, out, jobs, label, chunk=80):
-    """jobs: dict(scn, up, script, seed, fault_prob[, strict]). Runs the real actors, validates with TLC."""
+    """jobs: dict(hist, up, script, seed, fault_prob[, strict]). Runs the real actors, validates with TLC."""
     traces = []
     index = {}
-    stats = {"followed": 0, "skipped": 0, "livelock": 0, "fault": {"none": 0, "create": 0, "launch": 0, "leave": 0}, "ext": 0, "preserve": 0, "events": 0, "answered_started": 0, "answered_failed": 0, "stopped": 0, "proc": {"early": 0, "late": 0, "stubborn": 0}, "proc_stopped": {"early": 0, "late": 0, "stubborn": 0}}
+    stats = {"followed": 0, "skipped": 0, "livelock": 0, "fault": {"none": 0, "create": 0, "launch": 0, "leave": 0}, "ext": 0, "preserve": 0, "events": 0, "answered_started": 0, "answered_failed": 0, "stopped": 0, "proc": {"early": 0, "late": 0, "stubborn": 0}, "proc_stopped": {"early": 0, "late": 0, "stubborn": 0}, "lifecycles": {1: 0, 2: 0, 3: 0}, "reuse": {}}
     for n, job in enumerate(jobs):
         tid = "%s-%d" % (label, n)
-        tr = mechtrace.TracedMech(job["scn"], job["up"])
+        hist = job["hist"]
+        tr = mechtrace.TracedMech(hist[0], job["up"], plan=hist[1:])
         try:
-            f, s = tr.run([tuple(x) for x in job["script"]], random.Random(job["seed"] * 7919 + 17), fault_prob=job.get("fault_prob", 0.0), strict=job.get("strict", False), proc_prob=job.get("proc_prob", 0.0))
+            f, s = tr.run([tuple(x) for x in job["script"]], random.Random(job["seed"] * 7919 + 17), fault_prob=job.get("fault_prob", 0.0), strict=job.get("strict", False), proc_prob=job.get("proc_prob", 0.0), max_events=600)
             stats["followed"] += f
             stats["skipped"] += s
             if tr.livelock:
                 stats["livelock"] += 1
-            box = tr.w.rc_inbox()
-            stats["answered_started"] += "EngineStarted" in box
-            stats["answered_failed"] += "BenchmarkFailure" in box
-            stats["stopped"] += "EngineStopped" in box
-            stats["fault"][tr.w.fault] += 1
-            for x in tr.w.nd:
-                if x["proc"] != "alive":
-                    stats["proc"][x["proc"]] += 1
-                    stats["proc_stopped"][x["proc"]] += x["stops"] > 0
-            stats["ext"] += bool(job["scn"]["ext"])
-            stats["preserve"] += bool(job["scn"]["preserve"])
+            cycles = tr.summary + [tr.snapshot()]
+            stats["lifecycles"][min(len(cycles), 3)] += 1
+            for i, cy in enumerate(cycles):
+                box = cy["box"]
+                stats["answered_started"] += "EngineStarted" in box
+                stats["answered_failed"] += "BenchmarkFailure" in box
+                stats["stopped"] += "EngineStopped" in box
+                stats["fault"][cy["fault"]] += 1
+                for x in cy["nd"]:
+                    if x["proc"] != "alive":
+                        stats["proc"][x["proc"]] += 1
+                        stats["proc_stopped"][x["proc"]] += x["stops"] > 0
+                stats["ext"] += bool(cy["scn"]["ext"])
+                stats["preserve"] += bool(cy["scn"]["preserve"])
+                if i > 0:
+                    key = "%s->%s" % ("external" if cycles[i - 1]["scn"]["ext"] else "provisioned", "external" if cy["scn"]["ext"] else "provisioned")
+                    stats["reuse"][key] = stats["reuse"].get(key, 0) + 1
             trace = tr.trace(tid)
         finally:
             tr.close()
         stats["events"] += len(trace["events"])
         traces.append(trace)
         index[tid] = (job, trace)
-        out.add_case({"scn": job["scn"], "up": job["up"], "sched": [(e["ev"], e["a"], e["b"]) for e in trace["events"]]}, nontrivial=len(trace["events"]) > 8)
+        out.add_case({"hist": hist, "up": job["up"], "sched": [(e["ev"], e["a"], e["b"]) for e in trace["events"]]}, nontrivial=len(trace["events"]) > 8)
     v = tracecheck.validate("Mechanic", "TraceMechanic", "TraceMechanic.cfg", traces, name="mechtrace", chunk=chunk, timeout=1200)
     out.states += v.n_events
     out.transitions += v.n_events
@@ -180,14 +204,24 @@ def run_traces(ctx, out, jobs, label, chunk=80):
         bad.add(tid)
         first = min(ln for ln, cl in fails if set(cl) & L1_CLAUSES)
         ev = trace["events"][first - 1]
-        case = {"scn": job["scn"], "up": job["up"], "decisions": [(e["ev"], e["a"], e["b"]) for e in trace["events"] if e["ev"] != "Livelock"]}
+        case = {"hist": job["hist"], "up": job["up"], "decisions": [(e["ev"], e["a"], e["b"]) for e in trace["events"] if e["ev"] != "Livelock"]}
         out.violations.append(
             Violation(
                 ",".join(mine),
                 case,
-                signature=signature_of(mine, ev["st"], job["scn"]),
-                detail="trace %s: first failing event %d (%s %s %s), race control has %s, fault=%s"
-                % (tid, first, ev["ev"], ev["a"], ev["b"], ev["st"]["rcbox"] or "nothing", ev["st"]["env"]["fault"]),
+                signature=signature_of(mine, ev["st"], job["hist"]),
+                detail="trace %s: first failing event %d (%s %s %s) in lifecycle %d of %s, race control has %s, fault=%s"
+                % (
+                    tid,
+                    first,
+                    ev["ev"],
+                    ev["a"],
+                    ev["b"],
+                    ev["st"]["env"]["cyc"],
+                    ["external" if x["ext"] else "provisioned" for x in job["hist"]],
+                    ev["st"]["rcbox"] or "nothing",
+                    ev["st"]["env"]["fault"],
+                ),
             )
         )
     for tid, lines in v.l2.items():
@@ -213,7 +247,7 @@ def _merge(total, st):
 
 def run(ctx, out):
     out.rule = (
-        "case = (target-host list with external/preserve flags, remote daemons initially present, sequence of scheduling decisions: "
+        "case = (history of 1-3 engine lifecycles on one MechanicActor, each a target-host list with external/preserve flags; remote daemons initially present; sequence of scheduling decisions: "
         "message deliveries incl. the outcome of each host's start, wake-ups, race-control actions, daemons joining/leaving, node processes dying / ignoring SIGTERM) executed on "
         "the real actors; distinct by hash of scenario+decision sequence; non-trivial = more than 8 decisions. Sources: TLC -simulate "
         "behaviours of Mechanic.tla, TLC counterexamples of the pinned model variant (trap schedules), seeded random schedules over "
@@ -248,13 +282,13 @@ def run(ctx, out):
     traps = trap_schedules(out)
     # ---- Leg S2C
     jobs = []
-    for scn, up, script, _cfg in traps:
+    for hist, up, script, _cfg in traps:
         for k in range(2):
-            jobs.append({"scn": scn, "up": up, "script": script, "seed": ctx.seed + k, "fault_prob": 0.0})
+            jobs.append({"hist": hist, "up": up, "script": script, "seed": ctx.seed + k, "fault_prob": 0.0})
     beh = behaviours(ctx, out, 120 if ctx.quick else 1500, 45)
     out.note("leg S2C: %d TLC behaviours + %d trap schedules" % (len(beh), len(traps)))
-    for i, (scn, up, script) in enumerate(beh):
-        jobs.append({"scn": scn, "up": up, "script": script, "seed": ctx.seed + i, "fault_prob": 0.0})
+    for i, (hist, up, script) in enumerate(beh):
+        jobs.append({"hist": hist, "up": up, "script": script, "seed": ctx.seed + i, "fault_prob": 0.0})
     total = {}
     stats, index = run_traces(ctx, out, jobs, "s2c")
     _merge(total, stats)
@@ -262,8 +296,8 @@ def run(ctx, out):
     rnd = random.Random(ctx.seed + 4242)
     rjobs = []
     for i in range(150 if ctx.quick else 2500):
-        scn, up = random_scenario(rnd)
-        rjobs.append({"scn": scn, "up": up, "script": [], "seed": ctx.seed + 5000 + i, "fault_prob": [0.0, 0.1, 0.3][i % 3], "proc_prob": [0.0, 0.15, 0.3, 0.15][i % 4]})
+        hist, up = random_history(rnd)
+        rjobs.append({"hist": hist, "up": up, "script": [], "seed": ctx.seed + 5000 + i, "fault_prob": [0.0, 0.1, 0.3][i % 3], "proc_prob": [0.0, 0.15, 0.3, 0.15][i % 4]})
     rstats, rindex = run_traces(ctx, out, rjobs, "rnd")
     _merge(total, rstats)
     out.extra["runs"] = len(jobs) + len(rjobs)
@@ -276,6 +310,11 @@ def run(ctx, out):
     out.extra["runs_benchmark_failure"] = total["answered_failed"]
     out.extra["runs_engine_stopped"] = total["stopped"]
     out.extra["runs_livelock"] = total["livelock"]
+    out.extra["runs_by_number_of_lifecycles"] = total["lifecycles"]
+    out.extra["reuse_transitions"] = total["reuse"]
+    for key in ("external->provisioned", "provisioned->external", "provisioned->provisioned", "external->external"):
+        if total["reuse"].get(key, 0) == 0:
+            out.vacuous.append("reuse:" + key)
     out.extra["node_processes_not_alive"] = total["proc"]
     out.extra["node_processes_not_alive_and_stopped"] = total["proc_stopped"]
     for kind in ("early", "late", "stubborn"):
@@ -287,18 +326,18 @@ def run(ctx, out):
     if total["ext"] == 0 or total["preserve"] == 0 or total["stopped"] == 0:
         out.vacuous.append("scenario flags")
     some = index[sorted(index)[0]]
-    out.sample({"scenario": some[0]["scn"], "up": some[0]["up"], "decisions": [(e["ev"], e["a"], e["b"]) for e in some[1]["events"]][:40]})
+    out.sample({"history": some[0]["hist"], "up": some[0]["up"], "decisions": [(e["ev"], e["a"], e["b"]) for e in some[1]["events"]][:40]})
     some = rindex[sorted(rindex)[1]]
-    out.sample({"scenario": some[0]["scn"], "up": some[0]["up"], "decisions": [(e["ev"], e["a"], e["b"]) for e in some[1]["events"]][:40]})
+    out.sample({"history": some[0]["hist"], "up": some[0]["up"], "decisions": [(e["ev"], e["a"], e["b"]) for e in some[1]["events"]][:40]})
     out.note(
-        "leg C2S: %d runs, %d events, %d traces accepted by TLC, %d schedule steps followed, %d not enabled; faults %s; node processes not alive when stopped %s"
-        % (len(jobs) + len(rjobs), total["events"], out.traces_validated, total["followed"], total["skipped"], total["fault"], total["proc_stopped"])
+        "leg C2S: %d runs, %d events, %d traces accepted by TLC, %d schedule steps followed, %d not enabled; faults %s; node processes not alive when stopped %s; reuse %s"
+        % (len(jobs) + len(rjobs), total["events"], out.traces_validated, total["followed"], total["skipped"], total["fault"], total["proc_stopped"], total["reuse"])
     )
 
 
 def replay(ctx, case):
     out = Outcome("C12")
-    job = {"scn": case["scn"], "up": case["up"], "script": [tuple(x) for x in case["decisions"]], "seed": 0, "fault_prob": 0.0, "strict": True}
+    job = {"hist": case["hist"] if "hist" in case else [case["scn"]], "up": case["up"], "script": [tuple(x) for x in case["decisions"]], "seed": 0, "fault_prob": 0.0, "strict": True}
     stats, _ = run_traces(ctx, out, [job], "replay")
     if stats["skipped"]:
         print("MODEL-DRIFT property=C12 %d recorded decisions are no longer enabled" % stats["skipped"])
